@@ -675,8 +675,9 @@ class CallMixin:
         if name in BUILTIN_METHOD_NAMES:
             # colliding name: generic container semantics (both the builtin and the repo methods of these names
             # mutate / read their receiver the same way)
-            self.ev(frame, st, "call", n, callee="?." + name, recv=recv, args=tuple(args), note="ambiguous-receiver")
-            return self.call_builtin_method(recv, name, args, kwargs, n, st, frame, generic=True)
+            e = self.ev(frame, st, "call", n, callee="?." + name, recv=recv, args=tuple(args), note="ambiguous-receiver")
+            e.result = self.call_builtin_method(recv, name, args, kwargs, n, st, frame, generic=True)
+            return e.result
         if not owners or len(owners) > 6:
             self.unresolved(frame, st, n, "method %s on unknown receiver (%d candidates)" % (name, len(owners)))
             deps = recv.deps.union(*[a.deps for a in args]) if args else recv.deps
